@@ -374,6 +374,10 @@ F('room passages may fall on a wall junction or the outer wall', ['C13'], ['C13.
   '            x = rng.integers(x_from + 1, x_to)', '            x = rng.integers(x_from, x_to)')
 F('room passages in the vertical walls may reach the last row', ['C13'], ['C13.R5'], RS,
   '            y = rng.integers(y_from + 1, y_to)', '            y = rng.integers(y_from + 1, y_to + 1)')
+C('crossing rivers up to height - 1 exclusive (same rows: the height is odd)', ['C13', 'C02'], RS,
+  '((h, i) for i in range(2, shape.height - 2, 2))', '((h, i) for i in range(2, shape.height - 1, 2))')
+F('crossing rivers may start on the agent row', ['C13'], ['C13.R4'], RS,
+  '((h, i) for i in range(2, shape.height - 2, 2))', '((h, i) for i in range(1, shape.height - 2))')
 F('memory beacon of the wrong colour', ['C13'], ['C13.R3'], RS,
   '    grid[shape.height - 2, 1] = Beacon(color_good)', '    grid[shape.height - 2, 1] = Beacon(color_bad)')
 F('memory_rooms agent is element 1', ['C13'], ['C13.R3'], RS,
